@@ -1,4 +1,5 @@
 import DaeVerif.C04.Split
+import DaeVerif.C04.Cache
 /-!
 # C04 — property theorems
 
@@ -26,6 +27,9 @@ namespace DaeVerif.C04.Props
 open DaeVerif.C04 DaeVerif.RuleScan
 
 variable {δ : Type}
+
+/-- no geodata at all (for examples that need none) -/
+def exGeoNil : Geo := ⟨fun _ _ => none, fun _ _ => none⟩
 
 /-! ## Headline: the three compiled programs (full strength) -/
 
@@ -94,6 +98,151 @@ theorem node_lookup_decides_as_written {υ : Type} (S : Sem (Option υ)) (g : Ge
   unfold nodeLookup
   rw [internal_selectors_decide_as_written S g .subnode rs out qs none false hwf hp hs,
     internal_selectors_decide_as_written S g .node rs out qn none false hwf hp hn]
+
+/-- **dae's own lookup for a node, end to end** (`WrapNodeDialer` → `resolvingDialer` → `LookupIPAddr` →
+`selectUpstream`): the upstream that answers the question (host, qtype) asked on behalf of a node is the one
+the *written* list gives under the documented reading — the first `subnode` rule (subscription nodes only),
+else the first `node` rule that matches the node; without such a rule the first ordinary `qname`/`qtype`
+rule that matches the question; else the request fallback.  All three matchers come from ONE normalisation
+and ONE split of the written list (`out`).  `T` reads the selectors, `S` the question. -/
+theorem own_node_lookup_decides_as_written {υ : Type} (S : Sem υ) (hS : MatchSetSem S) (T : Sem (Option υ))
+    (g : Geo) (rs out qs qn qd : Prog) (tagged : Bool) (fb d : υ) (hwf : ParserWF rs)
+    (hp : dnsPipeline g rs = some out)
+    (hs : splitCat .subnode out = some qs) (hn : splitCat .node out = some qn) (hd : splitCat .dns out = some qd)
+    (hc : ownNodeLookup S T tagged qs qn qd fb = some d) :
+    d = match orElseLookup
+            (if tagged then (firstMatchAst (userSem (withCat T .subnode) g false) rs none false).1 else none)
+            (firstMatchAst (userSem (withCat T .node) g false) rs none false).1 with
+        | some u => u
+        | none => (firstMatchAst (userSem (withCat S .dns) g false) rs fb false).1 := by
+  unfold ownNodeLookup at hc
+  rw [node_lookup_decides_as_written T g rs out qs qn tagged hwf hp hs hn] at hc
+  cases hsel : orElseLookup
+      (if tagged then (firstMatchAst (userSem (withCat T .subnode) g false) rs none false).1 else none)
+      (firstMatchAst (userSem (withCat T .node) g false) rs none false).1 with
+  | some u => rw [hsel] at hc; simp only at hc; injection hc with hc; exact hc.symm
+  | none =>
+    rw [hsel] at hc
+    simp only at hc
+    cases hcd : compiledDecision S qd fb false with
+    | none => rw [hcd] at hc; cases hc
+    | some dd =>
+      rw [hcd] at hc
+      simp only [Option.map_some] at hc
+      injection hc with hc
+      rw [← hc, dns_request_compiled_decides_as_written S hS g rs out qd fb false dd hwf hp hd hcd]
+
+/-- **dae's own lookup for a subscription link** (`WrapSubscriptionDialer` + `selectUpstream`): first `sub`
+rule matching the subscription, else the ordinary rules on the question, else the fallback. -/
+theorem own_subscription_lookup_decides_as_written {υ : Type} (S : Sem υ) (hS : MatchSetSem S) (T : Sem (Option υ))
+    (g : Geo) (rs out qsub qd : Prog) (fb d : υ) (hwf : ParserWF rs)
+    (hp : dnsPipeline g rs = some out)
+    (hs : splitCat .sub out = some qsub) (hd : splitCat .dns out = some qd)
+    (hc : ownSubLookup S T qsub qd fb = some d) :
+    d = match (firstMatchAst (userSem (withCat T .sub) g false) rs none false).1 with
+        | some u => u
+        | none => (firstMatchAst (userSem (withCat S .dns) g false) rs fb false).1 := by
+  unfold ownSubLookup at hc
+  rw [internal_selectors_decide_as_written T g .sub rs out qsub none false hwf hp hs] at hc
+  cases hsel : (firstMatchAst (userSem (withCat T .sub) g false) rs none false).1 with
+  | some u => rw [hsel] at hc; simp only at hc; injection hc with hc; exact hc.symm
+  | none =>
+    rw [hsel] at hc
+    simp only at hc
+    cases hcd : compiledDecision S qd fb false with
+    | none => rw [hcd] at hc; cases hc
+    | some dd =>
+      rw [hcd] at hc
+      simp only [Option.map_some] at hc
+      injection hc with hc
+      rw [← hc, dns_request_compiled_decides_as_written S hS g rs out qd fb false dd hwf hp hd hcd]
+
+/-- **When `daedns.NewWithOption` builds no router.**  It returns `nil` when all four rule lists of the normalised,
+split program are empty (and the fallback hands dae's own lookups to the base resolver anyway).  Normalisation and
+split never lose the last rule: that happens only when the user wrote no rule at all — so "no router" can only
+mean "every lookup gets the (pass-through) fallback", which is what the empty list means as written. -/
+theorem no_router_only_without_rules (g : Geo) (rs out : Prog) (hp : dnsPipeline g rs = some out)
+    (h : ∀ c, splitCat c out = some []) : rs = [] := by
+  cases out with
+  | nil => exact pipeline_nil g rs hp
+  | cons r out =>
+    exfalso
+    have h1 := h .dns
+    unfold splitCat at h1
+    cases hc : classifyAll (r :: out) with
+    | none => rw [hc] at h1; cases h1
+    | some cs =>
+      unfold classifyAll at hc
+      cases hr : classify r with
+      | none => rw [hr] at hc; cases hc
+      | some c =>
+        have h2 := h c
+        unfold splitCat at h2
+        have hc' : classifyAll (r :: out) = some cs := by unfold classifyAll; exact hc
+        rw [hc'] at h2
+        simp only [Option.some.injEq, List.filter_eq_nil_iff] at h2
+        have := h2 r (List.mem_cons_self ..)
+        simp [hr] at this
+
+/-- … and the empty list does give four empty categories. -/
+example : dnsPipeline exGeoNil [] = some [] ∧ ∀ c, splitCat c [] = some [] := ⟨rfl, fun _ => rfl⟩
+
+/-! ## The geodata stage as the code runs it: cache, worker pool, collector -/
+
+/-- **One optimizer object, any history.**  Whatever rule lists a `DatReaderOptimizer` has expanded before
+(its cache carried along from call to call), every call returns what a fresh optimizer returns, namely
+`datOpt`: the cache never changes a result.  Assumption `KeyCongr`: a reference's content depends on the
+file name (+`.dat`) and the code up to letter case only. -/
+theorem shared_optimizer_history_is_cache_free (g : Geo) (hk : KeyCongr g) (history : List Prog) :
+    runHistory g {} history = history.map (datOpt g) :=
+  runHistory_eq g hk history {} (sound_empty g)
+
+/-- the two pipelines with the cache (in any reachable state) in front of the geodata stage — what the driver
+executes for the rule lists of a long-lived optimizer — are the pipelines of the headline theorems. -/
+theorem cached_pipelines_are_the_pipelines (g : Geo) (hk : KeyCongr g) (c : DatCache) (hc : Sound g c)
+    (evs : List CacheEv) (rs : Prog) :
+    ((datOptC g (evs.foldl (applyEv g) c) (aliasOpt (patchMustOpt rs))).1.map fun e => dedupOpt (mergeSortOpt e))
+        = trafficPipeline g rs ∧
+    ((datOptC g (evs.foldl (applyEv g) c) rs).1.map fun e => dedupOpt (mergeSortOpt e)) = dnsPipeline g rs := by
+  have hs := sound_reachable g hk evs c hc
+  exact ⟨by rw [(datOptC_spec g hk _ _ hs).1]; rfl, by rw [(datOptC_spec g hk _ _ hs).1]; rfl⟩
+
+/-- **The worker pool, every schedule.**  `Optimize` starts one worker per rule.  Worker `i` starts when the
+shared cache is in some reachable state (`evs i`: the stores made so far, by anyone, on top of the cache `c0`
+the object came with), runs `RuleRun` — its own look-ups and stores with any number of other workers' stores
+in between — and reports `res[i]`; the reports arrive at the collector in any order.  The call returns the
+rules expanded as `datOpt` does, in rule order, or an error exactly when `datOpt` fails. -/
+theorem datreader_pool_every_schedule (g : Geo) (hk : KeyCongr g) (c0 : DatCache) (h0 : Sound g c0) (rs : Prog)
+    (res : List (Option Rule)) (hlen : res.length = rs.length)
+    (hrun : ∀ i (h : i < rs.length), ∃ (evs : List CacheEv) (c' : DatCache),
+      RuleRun g (evs.foldl (applyEv g) c0) rs[i] (res[i]'(hlen ▸ h)) c')
+    (arrivals : List (Nat × Option Rule)) (harr : arrivals.Perm (res.zipIdx.map fun x => (x.2, x.1))) :
+    collect rs.length arrivals = (datOpt g rs).map (List.map some) := by
+  have hres : res = rs.map (datRule g) := by
+    apply List.ext_getElem
+    · rw [hlen, List.length_map]
+    · intro i h1 h2
+      have hi : i < rs.length := hlen ▸ h1
+      obtain ⟨evs, c', hr⟩ := hrun i hi
+      rw [(ruleRun_spec g hk _ _ _ _ (sound_reachable g hk evs c0 h0) hr).1, List.getElem_map]
+  rw [← hlen, collect_perm res arrivals harr, datOpt_eq, hres]
+  cases hm : mapOpt (datRule g) rs with
+  | none =>
+    obtain ⟨a, ha, hfa⟩ := mapOpt_none _ _ hm
+    have : (rs.map (datRule g)).all Option.isSome = false := by
+      rw [List.all_eq_false]
+      exact ⟨none, List.mem_map.mpr ⟨a, ha, hfa⟩, by simp⟩
+    rw [this]
+    rfl
+  | some bs =>
+    rw [mapOpt_some _ _ _ hm]
+    have : (bs.map some).all Option.isSome = true := by
+      rw [List.all_eq_true]
+      intro x hx
+      obtain ⟨b, _, rfl⟩ := List.mem_map.mp hx
+      rfl
+    rw [this]
+    rfl
 
 /-! ## The stages one by one (every clause of the property statement) -/
 
@@ -339,6 +488,102 @@ theorem merge_needs_parameters_or_false_reading :
   ⟨{ exSel with atom := fun _ _ => false },
    [ ⟨[⟨"sub", false, []⟩], ⟨"a", false, []⟩⟩, ⟨[⟨"sub", false, [⟨"name", "hk-1"⟩]⟩], ⟨"a", false, []⟩⟩ ],
    0, by decide⟩
+
+/-! ### the cache / pool / own-lookup theorems: non-vacuity -/
+
+
+/-- geodata given by key: `KeyCongr` holds by construction (what the file lookup + decoder provide). -/
+def keyGeo (site ip : Tbl) : Geo := ⟨fun f k => site.lookup (cacheKey f k), fun f k => ip.lookup (cacheKey f k)⟩
+
+theorem keyGeo_congr (site ip : Tbl) : KeyCongr (keyGeo site ip) :=
+  ⟨fun _ _ _ _ h => by simp only [keyGeo, h], fun _ _ _ _ h => by simp only [keyGeo, h]⟩
+
+def exKeyGeo : Geo :=
+  keyGeo [("geosite.dat:cn", [⟨"suffix", "a.com"⟩]), ("geosite.dat:x@ads", [⟨"full", "b.com"⟩])]
+    [("geoip.dat:private", [⟨"", "10.0.0.0/8"⟩])]
+
+def exP1 : Prog := [⟨[⟨"domain", false, [⟨"geosite", "cn"⟩]⟩], ⟨"proxy", false, []⟩⟩]
+def exP2 : Prog :=
+  [ ⟨[⟨"domain", false, [⟨"geosite", "CN"⟩, ⟨"geosite", "X@Ads"⟩]⟩], ⟨"proxy", false, []⟩⟩,
+    ⟨[⟨"ip", false, [⟨"geoip", "private"⟩, ⟨"geoip", "nosuch"⟩]⟩], ⟨"proxy", false, []⟩⟩ ]
+
+/-- the cache is really filled and really hit (`geosite:CN` after `geosite:cn`, an `@attr` code in another case),
+an error leaves the history intact, and every call returns what the cache-free stage returns. -/
+example : (datOptC exKeyGeo {} exP1).2.site = [("geosite.dat:cn", [⟨"suffix", "a.com"⟩])] ∧
+    (datOptC exKeyGeo (datOptC exKeyGeo {} exP1).2 exP2).2.site.length = 2 ∧
+    (datOptC exKeyGeo (datOptC exKeyGeo {} exP1).2 exP2).2.ip.length = 1 ∧
+    runHistory exKeyGeo {} [exP1, exP2, exP1] = [datOpt exKeyGeo exP1, none, datOpt exKeyGeo exP1] := by
+  decide
+
+/-- files whose content depended on the letter case of the code would break the cache: `KeyCongr` is needed. -/
+def badGeo : Geo := ⟨fun _ k => if k = "cn" then some [⟨"suffix", "a.com"⟩] else some [⟨"suffix", "b.com"⟩], fun _ _ => none⟩
+theorem key_congruence_needed : ∃ (g : Geo) (h : List Prog), runHistory g {} h ≠ h.map (datOpt g) :=
+  ⟨badGeo, [exP1, [⟨[⟨"domain", false, [⟨"geosite", "CN"⟩]⟩], ⟨"proxy", false, []⟩⟩]], by decide⟩
+
+def exPoolRules : Prog :=
+  [ ⟨[⟨"domain", false, [⟨"geosite", "cn"⟩]⟩], ⟨"proxy", false, []⟩⟩,
+    ⟨[⟨"domain", false, [⟨"geosite", "CN"⟩, ⟨"geosite", "X@Ads"⟩]⟩], ⟨"direct", false, []⟩⟩ ]
+
+def exPoolRes : List (Option Rule) :=
+  [ (datRuleC exKeyGeo {} exPoolRules[0]).1,
+    (datRuleC exKeyGeo ([CacheEv.storeSite "geosite" "cn"].foldl (applyEv exKeyGeo) {}) exPoolRules[1]).1 ]
+
+/-- the hypotheses of `datreader_pool_every_schedule` are satisfiable by a run in which worker 1 starts after
+worker 0 has stored `geosite.dat:cn` (and hits that entry with `geosite:CN`) and reports first. -/
+example : collect 2 [(1, exPoolRes[1]), (0, exPoolRes[0])] = (datOpt exKeyGeo exPoolRules).map (List.map some) :=
+  datreader_pool_every_schedule exKeyGeo (keyGeo_congr _ _) {} (sound_empty _) exPoolRules exPoolRes rfl
+    (fun i h => match i, h with
+      | 0, _ => ⟨[], _, ruleRun_of_datRuleC exKeyGeo {} exPoolRules[0]⟩
+      | 1, _ => ⟨[CacheEv.storeSite "geosite" "cn"], _, ruleRun_of_datRuleC exKeyGeo _ exPoolRules[1]⟩)
+    _ (List.Perm.swap _ _ [])
+
+example : (datOpt exKeyGeo exPoolRules).map List.length = some 2 := by decide
+
+/-- the question `x`/A asked for node `jp-2` of subscription `s2` -/
+def exOwnS : Sem Nat :=
+  { atom := fun n p => n == "qname" && p.val == "x"
+    guard := fun _ => true
+    emptyVal := fun _ => false
+    parseOut := fun o => .final (if o.name == "a" then 1 else if o.name == "b" then 2 else 3) }
+
+def exOwnT (nodeName : String) : Sem (Option Nat) :=
+  optSem { exOwnS with atom := fun n p => (n == "node" || n == "subnode") && p.key == "name" && p.val == nodeName
+                       emptyVal := fun _ => true }
+
+def exOwnRules : Prog :=
+  [ ⟨[⟨"node", false, [⟨"name", "hk-1"⟩]⟩], ⟨"a", false, []⟩⟩,
+    ⟨[⟨"node", false, [⟨"name", "jp-2"⟩]⟩], ⟨"a", false, []⟩⟩,
+    ⟨[⟨"qname", false, [⟨"suffix", "y"⟩, ⟨"geosite", "cn"⟩]⟩], ⟨"c", false, []⟩⟩,
+    ⟨[⟨"qname", false, [⟨"suffix", "x"⟩]⟩], ⟨"b", false, []⟩⟩,
+    ⟨[⟨"subnode", false, [⟨"subtag", "s"⟩]⟩], ⟨"c", false, []⟩⟩,
+    ⟨[⟨"sub", false, [⟨"tag", "s"⟩]⟩], ⟨"c", false, []⟩⟩ ]
+
+def exOwnOut : Prog :=
+  [ ⟨[⟨"node", false, [⟨"name", "hk-1"⟩, ⟨"name", "jp-2"⟩]⟩], ⟨"a", false, []⟩⟩,
+    ⟨[⟨"qname", false, [⟨"full", "b.com"⟩, ⟨"suffix", "a.com"⟩, ⟨"suffix", "y"⟩]⟩], ⟨"c", false, []⟩⟩,
+    ⟨[⟨"qname", false, [⟨"suffix", "x"⟩]⟩], ⟨"b", false, []⟩⟩,
+    ⟨[⟨"subnode", false, [⟨"subtag", "s"⟩]⟩], ⟨"c", false, []⟩⟩,
+    ⟨[⟨"sub", false, [⟨"tag", "s"⟩]⟩], ⟨"c", false, []⟩⟩ ]
+
+theorem exOwn_hyps : ParserWF exOwnRules ∧ dnsPipeline exGeo exOwnRules = some exOwnOut ∧
+    splitCat .subnode exOwnOut = some [exOwnOut[3]] ∧ splitCat .node exOwnOut = some [exOwnOut[0]] ∧
+    splitCat .dns exOwnOut = some [exOwnOut[1], exOwnOut[2]] ∧ splitCat .sub exOwnOut = some [exOwnOut[4]] := by
+  decide
+
+/-- node `jp-2`: the (merged) node rule names upstream 1; node `us-3`: no selector matches, the question `x` is
+routed by the ordinary rules to upstream 2 — both as `own_node_lookup_decides_as_written` says. -/
+example : ownNodeLookup exOwnS (exOwnT "jp-2") true [exOwnOut[3]] [exOwnOut[0]] [exOwnOut[1], exOwnOut[2]] 7 = some 1 ∧
+    ownNodeLookup exOwnS (exOwnT "us-3") true [exOwnOut[3]] [exOwnOut[0]] [exOwnOut[1], exOwnOut[2]] 7 = some 2 ∧
+    ownSubLookup exOwnS (exOwnT "us-3") [exOwnOut[4]] [exOwnOut[1], exOwnOut[2]] 7 = some 2 := by
+  decide
+
+example : (match orElseLookup (firstMatchAst (userSem (withCat (exOwnT "us-3") .subnode) exGeo false) exOwnRules none false).1
+      (firstMatchAst (userSem (withCat (exOwnT "us-3") .node) exGeo false) exOwnRules none false).1 with
+    | some u => u
+    | none => (firstMatchAst (userSem (withCat exOwnS .dns) exGeo false) exOwnRules 7 false).1) = 2 :=
+  (own_node_lookup_decides_as_written exOwnS ⟨fun _ => rfl, fun _ => rfl⟩ (exOwnT "us-3") exGeo exOwnRules exOwnOut
+    [exOwnOut[3]] [exOwnOut[0]] [exOwnOut[1], exOwnOut[2]] true 7 2 exOwn_hyps.1 exOwn_hyps.2.1 exOwn_hyps.2.2.1
+    exOwn_hyps.2.2.2.1 exOwn_hyps.2.2.2.2.1 (by decide)).symm
 
 end examples
 
